@@ -500,8 +500,37 @@ def gen_px_seq(rng):
     return {"k": "px_seq", "prev": prev, "logs": logs, "ticks": ticks}
 
 
+def gen_px_elect(rng):
+    """the leader decision of the proposer node: heartbeats and p1b replies per tick"""
+    prev = [rng.range(0, 3), 1]
+    my = [prev[0] + 1, 0]
+    ticks = []
+    for _ in range(rng.range(2, 7)):
+        hb, p1b = [], []
+        if rng.chance(1, 8):
+            hb.append([my[0] + rng.below(2), 1])
+        for _ in range(rng.choice([0, 1, 1, 2, 3])):
+            b = rng.choice([my, my, my, [0, 0], [max(my[0] - 1, 0), 0]])
+            acc = rng.below(3) if not rng.chance(1, 4) else 0
+            if rng.chance(1, 6):
+                p1b.append([acc, b, {"err": rng.choice([None, [my[0], 1], [my[0] + 1, 1], b])}])
+            else:
+                p1b.append([acc, b, "ok"])
+        for bb in hb + [m[2]["err"] for m in p1b if m[2] != "ok" and m[2]["err"]]:
+            if (my[0], my[1]) < (bb[0], bb[1]):
+                my = [bb[0] + 1, 0]
+        ticks.append({"hb": hb, "p1b": p1b})
+    return {"k": "px_elect", "prev": prev, "ticks": ticks}
+
+
 def px_harness_case(case):
-    """the case fed to harness/h_paxos (px_seq is a scripted run of the real proposer node)"""
+    """the case fed to harness/h_paxos (px_seq / px_elect are scripted runs of the real proposer node)"""
+    if case["k"] == "px_elect":
+        ticks = [{"adv_ms": 0}, {"adv_ms": 100, "hb": [case["prev"]]}, {"adv_ms": 4000}]
+        for j, t in enumerate(case["ticks"]):
+            ticks.append({"adv_ms": 10, "payloads": [100 + j], "hb": t["hb"],
+                          "p1b": [[m[0], m[1], {"ok": []} if m[2] == "ok" else m[2]] for m in t["p1b"]]})
+        return {"k": "px_prop", "id": 0, "ticks": ticks}
     if case["k"] != "px_seq":
         return case
     bal = [case["prev"][0] + 1, 0]
@@ -517,6 +546,8 @@ def gen_px(rng, tier):
         return gen_px_acc(rng)
     if rng.chance(1, 4):
         return gen_px_seq(rng)
+    if rng.chance(1, 4):
+        return gen_px_elect(rng)
     if rng.chance(1, 3):
         nt = rng.range(1, 5)
         ticks, hi = [], -1
@@ -548,6 +579,8 @@ def px_finding_key(case, r):
     - px/slot-reuse-after-leader-change: the election quorum's logs are non-empty, in every tick the new
       payloads got exactly the slots (max slot in those logs)+1.. (the recorded rule), and every pair of
       different values for one (slot, ballot) consists of two such new-payload p2as of different ticks;
+    - px/p1b-quorum-counts-replies-not-acceptors: every tick in which the node led without Ok p1b replies of
+      f+1 distinct acceptors for its ballot had at least f+1 Ok REPLIES for that ballot fed before;
     - px/quorum-counts-replies-not-acceptors: every slot reported decided without Ok replies of f+1 distinct
       acceptors had at least f+1 Ok REPLIES for (slot, leader ballot) fed before."""
     if r is None or "ticks" not in r:
@@ -578,6 +611,19 @@ def px_finding_key(case, r):
             if allv[sl] != nv or len(set(j for j, _ in new[sl])) < 2:
                 return None                        # a conflict the recorded mechanism does not explain
         return "px/slot-reuse-after-leader-change"
+    if case["k"] == "px_elect":
+        oks, explained = [], False
+        for j, (t, o) in enumerate(zip(case["ticks"], r["ticks"][3:])):
+            oks += [(m[0], tuple(m[1])) for m in t["p1b"] if m[2] == "ok"]
+            mine = [m for m in o["p2a"] if m[4] == 100 + j and m[0] == 0]
+            if mine:
+                b = tuple(mine[0][2])
+                who = [a for a, bb in oks if bb == b]
+                if len(set(who)) < 2:
+                    if len(who) < 2:
+                        return None                # leader without even f+1 Ok replies: something else
+                    explained = True
+        return "px/p1b-quorum-counts-replies-not-acceptors" if explained else None
     if case["k"] == "px_prop":
         bal, oks, explained = None, [], False
         for t, o in zip(case["ticks"], r["ticks"]):
@@ -620,6 +666,18 @@ def px_term(case, res):
                   for to, sl, b, body in t["p2b"]]
             outs.append("(%s, %s)" % (vlib.g_list(p1), vlib.g_list(p2)))
         return "(PaxosCheck.chk_acc %s %s)" % (ticks, vlib.g_list(outs))
+    if case["k"] == "px_elect":
+        pre = "[(%s, [])]" % vlib.g_list([gb(case["prev"])])
+        ticks = vlib.g_list(["(%s, %s)" % (vlib.g_list([gb(b) for b in t["hb"]]),
+                                             vlib.g_list(["(%d, (%s, %s))" % (m[0], gb(m[1]), "None" if m[2] == "ok" else "(Some %s)" % gob(m[2]["err"]))
+                                                          for m in t["p1b"]])) for t in case["ticks"]])
+        impl = []
+        for j, o in enumerate(res["ticks"][3:]):
+            mine = [m for m in o["p2a"] if m[4] == 100 + j and m[0] == 0]
+            if any(m[4] is not None and m[4] >= 100 and m[4] != 100 + j for m in o["p2a"]):
+                return 1  # a payload proposed in a tick it was not fed in
+            impl.append("(%s, %s)" % (vlib.g_bool(bool(mine)), gb(mine[0][2]) if mine else "(0, 0)"))
+        return "(PaxosCheck.chk_elect 1 0 %s %s %s)" % (pre, ticks, vlib.g_list(impl))
     if case["k"] == "px_prop":
         # scripted run of the real proposer node: decided slots need Ok replies of f+1 distinct acceptors
         bal, ticks = None, []
